@@ -67,6 +67,7 @@ type VC struct {
 	strConsts map[string]string
 	typeIDs   map[string]int
 	lookupStruct func(string) types.Type
+	rawPrelude   []string
 }
 
 func NewVC(mode, fn string) *VC {
@@ -155,7 +156,7 @@ func (vc *VC) Assume(t Term, note string) {
 }
 
 func (vc *VC) Raw(text string) {
-	vc.items = append(vc.items, item{kind: itRaw, text: text, syms: symsOf(text)})
+	vc.rawPrelude = append(vc.rawPrelude, text)
 	// names defined by raw text
 	for _, l := range strings.Split(text, "\n") {
 		l = strings.TrimSpace(l)
@@ -262,6 +263,10 @@ func (o *Obligation) Query(withModel bool) string {
 	b.WriteString("(set-logic ALL)\n")
 	for _, d := range vc.sortDecls {
 		b.WriteString(d)
+		b.WriteString("\n")
+	}
+	for _, r := range vc.rawPrelude {
+		b.WriteString(r)
 		b.WriteString("\n")
 	}
 	for i, it := range items {
